@@ -5,7 +5,7 @@
    fresh at the opener (in Cloak only the client opens streams); fewer than 2^64-2 frames. *)
 From Coq Require Import NArith ZArith List Bool String.
 From Cloak Require Import Model.Reorder Model.Mux Proofs.MuxBase Proofs.MuxSafety Proofs.MuxView
-  Proofs.MuxEffect Proofs.MuxPay Proofs.MuxData Proofs.MuxGuards.
+  Proofs.MuxEffect Proofs.MuxPay Proofs.MuxData Proofs.MuxGuards Proofs.MuxNonce.
 Import ListNotations.
 Local Open Scope N_scope.
 
@@ -30,6 +30,16 @@ Theorem C13_frames_carry_written :
   data_bytes (run_frames s sid (outputs k sp u ta tb ls)) = run_written s sid ls (outputs k sp u ta tb ls).
 Proof. exact frames_carry_written. Qed.
 Print Assumptions C13_frames_carry_written.
+
+(* across ALL streams of an endpoint: the (stream id, sequence number) pairs of the stream frames it
+   puts on the wire are pairwise distinct - with the per-session key, no AEAD nonce is used twice *)
+Theorem C13_nonces_unique :
+  forall k sp u ta tb s ls,
+  fresh_run (init k sp u ta tb) ls ->
+  (forall sid, nE (run_frames s sid (outputs k sp u ta tb ls)) + 2 < two64) ->
+  NoDup (map (fun fr => (w_sid fr, w_seq fr)) (all_frames s (outputs k sp u ta tb ls))).
+Proof. exact nonces_unique. Qed.
+Print Assumptions C13_nonces_unique.
 
 (* generated obligations (coq/Gen/Guards.v, regenerated from /repo by tools/lockscan): every access
    of the sequence counter and of the frame template happens under the stream's write mutex *)
